@@ -74,6 +74,18 @@ func tuneVRF(prop string, k *ChainKnobs) *core.Rand {
 	if v.HQThreshold == 3 {
 		v.HQThreshold = uint64(vr.Range(3, 8))
 	}
+	if prop == "C14" && vr.Chance(2, 3) {
+		// Election runs: mostly nodes that stay registered (a node that re-registers after its
+		// expiry is not eligible for a full epoch) and a low threshold, so that committees are
+		// elected from proofs in many epochs and weak epochs follow strong ones.
+		g.ShortExpiry = 0
+		// (a committee elected in one epoch and a weak alpha in the next need a threshold above
+		// what a committee needs and a number of proofs that moves around it)
+		v.HQThreshold = uint64(vr.Range(1, 2))
+		if vr.Chance(1, 2) {
+			v.HQThreshold = uint64(vr.Range(3, 7))
+		}
+	}
 	g.BeaconVRF = v
 	if vr.Chance(3, 4) {
 		g.MinGasPrice = 0 // (node accounts hold nothing to pay fees with)
